@@ -89,6 +89,7 @@ def run(chk):
                 cen = cen + np.array([0.0, d / 8, d / 4])
             cases.append(C.encode_case("curved", sc=[a, b, c, cen[0], cen[1], cen[2]]))
             meta.append((a, b, c, cen))
+    scalar_forms(chk, coxeter)
     res = C.run_model(cases)
     nvm, okvm = C.vm_crosscheck(cases[:10], res[:10], "C10", limit=10)
     if not okvm:
@@ -230,6 +231,51 @@ def run(chk):
     if not okcert:
         chk.violation("ellipse.perimeter-interval", dict(what="Coq Interval could not certify |arc-length integral - implementation| <= 1e-9 rel", log=log[-1500:],
                                                           samples=interval_samples), no_input=True)
+
+
+def scalar_forms(chk, coxeter):
+    """Integral radii / semi-axes given as a Python int, a numpy integer, a 0-d array (float or integer) mean the same shape as the float:
+    every measure agrees, at construction and as the target of an assignment.  (A numpy float32 scalar is not included: the closed forms
+    are then evaluated in single precision by numpy's promotion rules - the parameter's own precision; see DESIGN 8.6.)"""
+    S = coxeter.shapes
+    forms = {"int": int, "numpy.int64": np.int64, "0-d float array": lambda x: np.array(float(x)), "0-d integer array": lambda x: np.array(int(x))}
+    cen = [0.5, -1.25, 2.0]
+    mk = {"Circle": (lambda f: S.Circle(f(3), cen), ("radius",)), "Ellipse": (lambda f: S.Ellipse(f(3), f(2), cen), ("a", "b")),
+          "Sphere": (lambda f: S.Sphere(f(3), cen), ("radius",)), "Ellipsoid": (lambda f: S.Ellipsoid(f(3), f(2), f(5), cen), ("a", "b", "c"))}
+    names = ("area", "volume", "perimeter", "surface_area", "iq", "eccentricity", "polar_moment_inertia", "inertia_tensor", "planar_moments_inertia",
+             "radius", "a", "b", "c")
+
+    def meas(o):
+        out = {}
+        for n in names:
+            if hasattr(type(o), n):
+                st, v = C.excname(lambda: np.asarray(getattr(o, n), float))
+                out[n] = (st, v)
+        return out
+
+    def differs(x, y):
+        for n in y:
+            if x[n][0] != y[n][0] or (y[n][0] == "ok" and (x[n][1].shape != y[n][1].shape or not np.allclose(x[n][1], y[n][1], rtol=1e-13, atol=0))):
+                return n
+        return None
+    for cls, (m, params) in mk.items():
+        ref = meas(m(float))
+        for fn, f in forms.items():
+            st, o = C.excname(m, f)
+            chk.count("scalar-form:" + fn)
+            if st != "ok":
+                chk.violation("%s.parameter-form-rejected" % cls.lower(), dict(cls=cls, form=fn, error=st)); continue
+            n = differs(meas(o), ref)
+            if n:
+                chk.violation("%s.%s-parameter-form" % (cls.lower(), n), dict(cls=cls, form=fn, impl=str(meas(o)[n][1]), with_float_parameters=str(ref[n][1]))); continue
+            # ... and as the target of an assignment to each parameter
+            for prm in params:
+                o1, o2 = m(float), m(float)
+                st1, _ = C.excname(setattr, o1, prm, f(4))
+                st2, _ = C.excname(setattr, o2, prm, 4.0)
+                n = None if st1 != "ok" or st2 != "ok" else differs(meas(o1), meas(o2))
+                if st1 != st2 or n:
+                    chk.violation("%s.%s-assigned-as-%s" % (cls.lower(), prm, fn), dict(cls=cls, form=fn, outcomes=[st1, st2], differing=n)); break
 
 
 def after_assignment(chk, coxeter, a, b, c, cen, desc):
